@@ -249,6 +249,40 @@ pub fn conc_val(fc: &FieldCtx, a: &AbsVal) -> u128 {
     }
 }
 
+/// Like `conc_val`, but one value in eight is derived from what the field currently holds in `cur` (element `i`):
+/// the same value again, the field's bits taken from the word *without shifting them down*, one bit flipped, the
+/// complement, +1 / -1, the bits just above the field, the low bits of the word. A fault whose trigger is a
+/// relation between the old contents and the new value (an early return "nothing changes", a carry, a compare
+/// with an unshifted mask) has probability 2^-width under independent uniform values; here it is hit directly.
+pub fn conc_val_rel(ctx: &Ctx, f: usize, i: usize, a: &AbsVal, cur: u128) -> u128 {
+    let fc = &ctx.fields[f];
+    // BBV_NO_REL=1 switches the related values off (used once to measure what they add; see DESIGN.md 13.5)
+    static NO_REL: std::sync::OnceLock<bool> = std::sync::OnceLock::new();
+    let no_rel = *NO_REL.get_or_init(|| std::env::var("BBV_NO_REL").map(|v| v == "1").unwrap_or(false));
+    if no_rel || fc.width == 0 || (a.mode >> 3) % 8 != 0 || fc.pos.is_empty() {
+        return conc_val(fc, a);
+    }
+    let i = i.min(fc.pos.len() - 1);
+    let m = mask(fc.width);
+    let old = gather(cur, &fc.pos[i]);
+    if let Some(vv) = &fc.valid_vals {
+        // enum-typed field: only discriminants may be written
+        return if vv.contains(&old) { old } else { conc_val(fc, a) };
+    }
+    let k = ((a.bits >> 8) % fc.width as u128) as u32;
+    let above = (fc.pos[i][0] + fc.width) % ctx.layout.base_bits.max(1);
+    match ((a.mode >> 6) as u32) * 2 + ((a.bits >> 7) & 1) as u32 {
+        0 => old,
+        1 => (cur & fc.foot[i]) & m,
+        2 => old ^ (1u128 << k),
+        3 => !old & m,
+        4 => old.wrapping_add(1) & m,
+        5 => old.wrapping_sub(1) & m,
+        6 => (cur >> above) & m,
+        _ => cur & m,
+    }
+}
+
 pub fn conc_index(count: u32, mode: u8, sel: u16) -> usize {
     if count <= 1 {
         return 0;
@@ -288,8 +322,10 @@ pub fn conc_oob(count: u32, stride: u32, sel: u16) -> usize {
     cands[pick(sel, cands.len())]
 }
 
-pub fn conc_ops(ctx: &Ctx, elig: &[usize], ops: &[AbsOp], allow_build: bool, writes_only: bool) -> Vec<Op> {
+pub fn conc_ops(ctx: &Ctx, elig: &[usize], ops: &[AbsOp], allow_build: bool, writes_only: bool, raw0: u128) -> Vec<Op> {
     let mut out = Vec::new();
+    // contents according to the reference model, so that values can be related to what a field holds *now*
+    let mut cur = raw0;
     for o in ops {
         let kind = o.kind % 16;
         let wr: Vec<usize> = elig.iter().copied().filter(|f| ctx.fields[*f].writable).collect();
@@ -302,7 +338,10 @@ pub fn conc_ops(ctx: &Ctx, elig: &[usize], ops: &[AbsOp], allow_build: bool, wri
                 let f = wr[pick(o.f, wr.len())];
                 let fc = &ctx.fields[f];
                 let i = conc_index(fc.count, (o.i & 3) as u8, o.i);
-                let v = H(conc_val(fc, &o.v));
+                let v = H(conc_val_rel(ctx, f, i, &o.v, cur));
+                if !ctx.loose {
+                    cur = scatter(cur, &fc.pos[i], v.0);
+                }
                 if kind <= 5 {
                     out.push(Op::With { f, i, v });
                 } else {
@@ -337,6 +376,12 @@ pub fn conc_ops(ctx: &Ctx, elig: &[usize], ops: &[AbsOp], allow_build: bool, wri
                         }
                         args.push(a);
                     }
+                    cur = ctx.layout.default_value();
+                    for (wf, a) in ctx.writable.iter().zip(args.iter()) {
+                        for (k, v) in a.iter().enumerate() {
+                            cur = scatter(cur, &ctx.fields[*wf].pos[k], v.0);
+                        }
+                    }
                     out.push(Op::Build { args });
                 }
             }
@@ -351,9 +396,10 @@ pub fn conc_build_args(ctx: &Ctx, abs: &Abs) -> Vec<Vec<H>> {
     for wf in &ctx.writable {
         let fc = &ctx.fields[*wf];
         let mut a = Vec::new();
-        for _ in 0..fc.count {
+        for e in 0..fc.count {
             let av = &abs.args[k.min(abs.args.len() - 1)];
-            a.push(H(conc_val(fc, av)));
+            // one argument in eight is related to what the declared default holds in this field
+            a.push(H(conc_val_rel(ctx, *wf, e as usize, av, ctx.layout.default_value())));
             k += 1;
         }
         args.push(a);
